@@ -210,23 +210,32 @@ fn try_use(ty: u32) -> Option<i64> {
 
 // ---------------------------------------------------------------------------------- interpreter
 
+thread_local! {
+    /// rotates through the equivalent forms of the signal API (get / with / get_clone, set / update / replace / set_fn, ...)
+    static API_ROT: Cell<u32> = const { Cell::new(0) };
+}
+fn rot() -> u32 {
+    API_ROT.with(|c| {
+        let v = c.get();
+        c.set(v.wrapping_add(1));
+        v
+    })
+}
+
 fn read(env: &Env, x: u32, tracked: bool) -> i64 {
-    let v = match lookup(env, x) {
-        Bind::Sig(s) => {
-            if tracked {
-                s.get()
-            } else {
-                s.get_untracked()
-            }
-        }
-        Bind::Read(s) => {
-            if tracked {
-                s.get()
-            } else {
-                s.get_untracked()
-            }
-        }
+    // every read form of the API in turn: they must all behave alike (value, tracking)
+    let rs: ReadSignal<i64> = match lookup(env, x) {
+        Bind::Sig(s) => *s,
+        Bind::Read(s) => s,
         _ => panic!("ILL-FORMED: read of a non-signal"),
+    };
+    let v = match (tracked, rot() % 3) {
+        (true, 0) => rs.get(),
+        (true, 1) => rs.with(|v| *v),
+        (true, _) => rs.get_clone(),
+        (false, 0) => rs.get_untracked(),
+        (false, 1) => rs.with_untracked(|v| *v),
+        (false, _) => rs.get_clone_untracked(),
     };
     let eff = tracked && SPEC_TRACKING.with(|t| t.get());
     log(format!("read {x} {v} {} {}", tracked as u8, eff as u8));
@@ -429,8 +438,16 @@ fn exec1(env: &Env, s: &Stmt) -> Env {
         Stmt::Set(x, e) => {
             let v = eval(env, e);
             log(format!("write {x} {v}"));
+            // every notifying write form of the API in turn
             match lookup(env, *x) {
-                Bind::Sig(s) => s.set(v),
+                Bind::Sig(s) => match rot() % 4 {
+                    0 => s.set(v),
+                    1 => s.update(|x| *x = v),
+                    2 => {
+                        let _ = s.replace(v);
+                    }
+                    _ => s.set_fn(move |_| v),
+                },
                 _ => panic!("ILL-FORMED: set of a non-signal"),
             }
             env.clone()
@@ -438,7 +455,14 @@ fn exec1(env: &Env, s: &Stmt) -> Env {
         Stmt::SetSilent(x, e) => {
             let v = eval(env, e);
             match lookup(env, *x) {
-                Bind::Sig(s) => s.set_silent(v),
+                Bind::Sig(s) => match rot() % 4 {
+                    0 => s.set_silent(v),
+                    1 => s.update_silent(|x| *x = v),
+                    2 => {
+                        let _ = s.replace_silent(v);
+                    }
+                    _ => s.set_fn_silent(move |_| v),
+                },
                 _ => panic!("ILL-FORMED: set of a non-signal"),
             }
             env.clone()
@@ -626,6 +650,7 @@ fn classify(msg: &str, _file: &str) -> &'static str {
 fn run_scenario(line: &str, out: &mut impl Write) {
     let stmts = p_stmts(&sexpr::parse(line));
     LOG.with(|l| l.borrow_mut().clear());
+    API_ROT.with(|c| c.set(0));
     REGISTRY.with(|r| r.borrow_mut().clear());
     SPEC_TRACKING.with(|t| t.set(false));
     let mut lines: Vec<String> = Vec::new();
